@@ -521,6 +521,85 @@ def rule_chromawindow(ctx):
             yield o
 
 
+def _abs_dev(t):
+    """np.abs(ref - est) or np.abs(est - ref) over the two timestamp parameters"""
+    if t.op == "call" and call_name(t) == "np.abs" and len(t.a[1]) == 1:
+        d = t.a[1][0]
+        if d.op == "bin" and d.a[0] == "-" and d.a[1].op == "param" and d.a[2].op == "param":
+            return {frozenset(roles(d.a[1])), frozenset(roles(d.a[2]))} == {frozenset({"R"}), frozenset({"E"})}
+    return False
+
+
+def rule_alignform(ctx):
+    """alignment: mae / aae are the median / mean of |ref - est|; pc is the mean of |ref - est| <= window (closed);
+    the perceptual score is the mean of the published skew-normal of (est - ref) with its four constants."""
+    R = "C04.ALIGNFORM"
+    f = ctx.program.func("alignment.absolute_error", R)
+    s = ctx.S.get(f.qual)
+    need(len(s.returns) == 1, R, "absolute_error: single return expected")
+    t = s.returns[0].term
+    good = t.op == "tuple" and len(t.a) == 2 and all(x.op == "call" and len(x.a[1]) == 1 and _abs_dev(x.a[1][0]) for x in t.a) and [call_name(x) for x in t.a] == ["np.median", "np.mean"] and t.a[0].a[1][0] is t.a[1].a[1][0]
+    yield ob(R, f, "alignment.absolute_error:formula", good, "returns (median, mean) of |reference - estimate|" if good else "absolute_error returns %s" % tm.show(t, 4), node=s.returns[0].node)
+    f = ctx.program.func("alignment.percentage_correct", R)
+    s = ctx.S.get(f.qual)
+    need(len(s.returns) == 1, R, "percentage_correct: single return expected")
+    t = s.returns[0].term
+    good = False
+    if t.op == "call" and call_name(t) == "np.mean" and len(t.a[1]) == 1:
+        c = t.a[1][0]
+        good = c.op == "cmp" and c.a[0] == "<=" and _abs_dev(c.a[1]) and c.a[2].op == "param" and c.a[2].a[0] == "window"
+    yield ob(R, f, "alignment.percentage_correct:formula", good, "returns mean(|reference - estimate| <= window)" if good else "percentage_correct returns %s" % tm.show(t, 4), node=s.returns[0].node)
+    f = ctx.program.func("alignment.karaoke_perceptual_metric", R)
+    s = ctx.S.get(f.qual)
+    need(len(s.returns) == 1, R, "karaoke_perceptual_metric: single return expected")
+    t = s.returns[0].term
+    pdf = [x for x in tm.walk(t) if x.op == "call" and call_name(x) == "scipy.stats.skewnorm.pdf"]
+    good = t.op == "call" and call_name(t) == "np.mean" and len(pdf) == 1
+    consts = None
+    if good:
+        x = pdf[0]
+        d = x.a[1][0]
+        orient = d.op == "bin" and d.a[0] == "-" and roles(d.a[1]) == {"E"} and roles(d.a[2]) == {"R"}
+        kw = dict(x.a[2])
+        vals = [lit(x.a[1][1]) if len(x.a[1]) > 1 else None, lit(kw["loc"]) if "loc" in kw else None, lit(kw["scale"]) if "scale" in kw else None]
+        consts = vals
+        norm = [lit(z) for z in tm.walk(t) if z.op == "const" and isinstance(z.a[0], float) and abs(z.a[0] - 1.6857) < 1e-9]
+        good = orient and vals == [1.12244251, -0.22270315, 0.29779424] and bool(norm)
+    yield ob(R, f, "alignment.karaoke_perceptual_metric:formula", good, "mean of skewnorm.pdf(est - ref, 1.12244251, loc=-0.22270315, scale=0.29779424) / 1.6857" if good else "perceptual metric deviates from the published constants/orientation (%s)" % (consts,), node=s.returns[0].node)
+
+
+def rule_cemgilform(ctx):
+    """Cemgil: per reference beat the distance to the *nearest* estimate, a Gaussian exp(-d^2 / (2 sigma^2)) with the
+    caller's sigma, one accumulator per metrical variation; returns (variation 0, max over variations)."""
+    R = "C04.CEMGILFORM"
+    f = ctx.program.func("beat.cemgil", R)
+    s = ctx.S.get(f.qual)
+    main = [r for r in s.returns if not (r.term.op == "tuple" and all(is_lit(x) for x in r.term.a))]
+    need(len(main) == 1 and main[0].term.op == "tuple" and len(main[0].term.a) == 2, R, "cemgil: (score, max) return not found")
+    first, best = main[0].term.a
+    good = first.op == "sub" and tm.is_const(first.a[1], 0) and best.op == "call" and call_name(best) in ("np.max", "builtins.max") and best.a[1][0] is first.a[0]
+    yield ob(R, f, "beat.cemgil:returns", good, "returns (accuracies[0], max(accuracies)) of one list" if good else "cemgil returns %s" % tm.show(main[0].term, 3), node=main[0].node)
+    exps = [c for c in s.calls() if c.callee == "np.exp"]
+    need(len(exps) >= 1, R, "cemgil: Gaussian term not found")
+    e = exps[0].args[0]
+    ok = False
+    why = "Gaussian argument is %s" % tm.show(e, 5)
+    if e.op == "bin" and e.a[0] == "/":
+        num, den = e.a[1], e.a[2]
+        sq = num.a[1] if num.op == "un" and num.a[0] == "-" else None
+        if sq is not None and sq.op == "bin" and sq.a[0] == "**" and tm.is_const(sq.a[2], 2):
+            d = sq.a[1]
+            nearest = d.op == "call" and call_name(d) == "np.min" and d.a[1][0].op == "call" and call_name(d.a[1][0]) == "np.abs"
+            diff = d.a[1][0].a[1][0] if nearest else None
+            sides = diff is not None and diff.op == "bin" and diff.a[0] == "-" and any(z.op == "param" and z.a[0] == "estimated_beats" for z in diff.a[1:]) and any(z.op == "iter" for z in diff.a[1:])
+            sig = tm.param("cemgil_sigma")
+            lf = den
+            den_ok = den.op == "bin" and den.a[0] == "*" and any(tm.is_const(z, 2) for z in den.a[1:]) and any(z.op == "bin" and z.a[0] == "**" and z.a[1] is sig and tm.is_const(z.a[2], 2) for z in den.a[1:])
+            ok = nearest and sides and den_ok
+            why = "each reference beat contributes exp(-min|beat - estimated_beats|^2 / (2 * cemgil_sigma^2))"
+    yield ob(R, f, "beat.cemgil:gaussian", ok, why, node=exps[0].node)
+
+
 RULES = [
     ("C04.DOCDEFAULT", 40, rule_docdefault),
     ("C04.PRNORM", 13, rule_prnorm),
@@ -536,4 +615,6 @@ RULES = [
     ("C04.VELNORM", 1, rule_velnorm),
     ("C04.FIRSTN", 4, rule_firstn),
     ("C04.CHROMAWINDOW", 2, rule_chromawindow),
+    ("C04.ALIGNFORM", 3, rule_alignform),
+    ("C04.CEMGILFORM", 2, rule_cemgilform),
 ]
